@@ -102,6 +102,7 @@ void ezc3d::c3d::readFile(unsigned int nByteToRead, char * c, int nByteFromPrevi
 {
     if (pos != 1)
         this->seekg (nByteFromPrevious, pos); // Move to number analogs
+    std::fill(c, c + nByteToRead, '\0'); // A read past the end of the file leaves zeros
     this->read (c, nByteToRead);
     c[nByteToRead] = '\0'; // Make sure last char is NULL
 }
